@@ -38,11 +38,28 @@ def gen(rng, tier):
     k = 3 if tier == "quick" else 60
     cases += [core.case_from_struct(G.gen_doubled_tie(rng), Weight=core.weights(i), Assemble=True) for i in range(k)]
     cases += [core.case_from_struct(G.with_unused_node(G.gen_frame(rng, max_cells=1) if i % 2 else shared_joint(rng), rng), Weight=False, Assemble=True) for i in range(k)]
+    # the same sliced structure assembled a second time after nodal loads were added to two of its slice nodes
+    for i, c in enumerate(cases):
+        if i % 3 == 1 and not c.get("ViaPre"):
+            c["Reassemble"] = True
+    # a frame of more than a thousand equations whose supported equations carry loads (own weight on the ground-floor
+    # columns), assembled on one processor and on all of them: whichever goroutine schedule the run time picks
+    import subprocess
+    from .. import cli
+    frame = subprocess.run([cli.BIN, "generate", "--type", "retic", "--spans", "5", "--levels", "4"], stdout=subprocess.PIPE, text=True).stdout
+    for procs in (1, 2, None):
+        cases.append({"Text": frame, "kind": "large-frame/procs=%s" % procs, "Weight": True, "Assemble": True, "Isolate": True, "Procs": procs})
     return cases
 
 
 def oracle(c, o):
-    return O.c17_structure(o, o["Pre"][-1])
+    fails = O.c17_structure(o, o["Pre"][-1])
+    ag = o.get("Again")
+    if ag and not fails:
+        if ag.get("Panic"):
+            return ["assembling again after adding nodal loads panicked: " + ag["Panic"][:200]]
+        fails = ["assembled again after nodal loads were added to two slice nodes: " + f for f in O.c17_structure(dict(o, KEntries=ag["KEntries"], F=ag["F"]), ag["Pre"])]
+    return fails
 
 
 SPEC = {
@@ -50,8 +67,9 @@ SPEC = {
     "gen": gen,
     "oracle": oracle,
     "corpus_opts": {"Assemble": True},
-    "stages": [("D", lambda c, o, rng: S.stageD_case(o, rng), S.stageD_v, 2, None),
-               ("H", lambda c, o, rng: S.stageD_case(o, rng, nsample=0), S.stageH_v, 2, 14)],
+    # (the thousand-equation frames go through the oracle only: their evaluation inside Coq would take minutes each)
+    "stages": [("D", lambda c, o, rng: None if c.get("kind", "").startswith("large-frame") else S.stageD_case(o, rng), S.stageD_v, 2, None),
+               ("H", lambda c, o, rng: None if c.get("kind", "").startswith("large-frame") else S.stageD_case(o, rng, nsample=0), S.stageH_v, 2, 14)],
     "nontrivial": lambda c, o: len(o["Bars"]) >= 2 and any((b.get("DL") or b.get("CL")) for b in o["Bars"]),
     "rule": "twin pinned members between the same two free joints; definitions with a node no bar uses; joints where 2-4 bars (as start or end node, in any order) bring nodal and end-of-span loads to the same equations, and grid frames with all support and link kinds; own weight on every third; "
             "non-trivial iff >= 2 bars and some load; MakeSystemOfEquations is compared entry by entry with an independent exact re-assembly from the implementation's own slices (oracle) and with the Coq model (stage D)",
